@@ -164,7 +164,7 @@ def run_case(case):
         # eigenstate order must not matter for (g, r)
         a = StateVector.from_state_amplitudes(eigenstates=("g", "r"), amplitudes={"rg": 1.0, "gg": 0.5})
         b = StateVector.from_state_amplitudes(eigenstates=("r", "g"), amplitudes={"rg": 1.0, "gg": 0.5})
-        if np.abs(_np(a) - _np(b)).max() > 0:
+        if not np.abs(_np(a) - _np(b)).max() <= 0:  # NaN fails
             bad.append("state depends on the order in which eigenstates are listed")
         if bad:
             return result(False, sig="bases", msg="; ".join(bad), outcome="viol")
@@ -183,14 +183,14 @@ def run_case(case):
             calls += 2
             count += 1
             nontriv += len(d) > 1
-            if np.abs(_np(sv) - ref).max() > 1e-13:
+            if not np.abs(_np(sv) - ref).max() <= 1e-13:  # NaN fails
                 return result(False, sig="StateVector.from_state_amplitudes", msg=f"amplitudes {d}: got {_np(sv).tolist()} expected {ref.tolist()}", outcome="viol")
-            if np.abs(_np(dm) - np.outer(ref, ref.conj())).max() > 1e-13:
+            if not np.abs(_np(dm) - np.outer(ref, ref.conj())).max() <= 1e-13:  # NaN fails
                 return result(False, sig="DensityMatrix.from_state_amplitudes", msg=f"amplitudes {d}: density matrix != |psi><psi|", outcome="viol")
             if abs(float(sv.norm()) - 1) > 1e-13 or sv.n_qudits != n or dm.n_qudits != n:
                 return result(False, sig="state-norm-or-size", msg=f"amplitudes {d}: norm {float(sv.norm())} n_qudits {sv.n_qudits}", outcome="viol")
             dm2 = DensityMatrix.from_state_vector(sv)
-            if np.abs(_np(dm2) - _np(dm)).max() > 1e-13:
+            if not np.abs(_np(dm2) - _np(dm)).max() <= 1e-13:  # NaN fails
                 return result(False, sig="from_state_vector", msg=f"amplitudes {d}", outcome="viol")
             refs.append(ref)
             svs.append((sv, dm))
@@ -202,12 +202,12 @@ def run_case(case):
             ra, rb = refs[i], refs[j]
             calls += 5
             ip = complex(a.inner(b))
-            if abs(ip - np.vdot(ra, rb)) > 1e-13:
+            if not abs(ip - np.vdot(ra, rb)) <= 1e-13:  # NaN fails
                 return result(False, sig="StateVector.inner", msg=f"<{dicts[i]}|{dicts[j]}> = {ip} expected {np.vdot(ra, rb)}", outcome="viol")
-            if abs(float(a.overlap(b)) - abs(np.vdot(ra, rb)) ** 2) > 1e-13:
+            if not abs(float(a.overlap(b)) - abs(np.vdot(ra, rb)) ** 2) <= 1e-13:  # NaN fails
                 return result(False, sig="StateVector.overlap", msg=f"{dicts[i]} {dicts[j]}", outcome="viol")
             ov = complex(da.overlap(db))
-            if abs(ov - abs(np.vdot(ra, rb)) ** 2) > 1e-13:
+            if not abs(ov - abs(np.vdot(ra, rb)) ** 2) <= 1e-13:  # NaN fails
                 return result(False, sig="DensityMatrix.overlap", msg=f"{dicts[i]} {dicts[j]}: {ov}", outcome="viol")
             s = a + b
             t = (0.3 - 2j) * a
@@ -224,7 +224,7 @@ def run_case(case):
             calls += 2
             ov = complex(dms[i].overlap(dms[j]))
             exp = np.trace(mats[i].conj().T @ mats[j])
-            if abs(ov - exp) > 1e-11 * max(1.0, abs(exp)):
+            if not abs(ov - exp) <= 1e-11 * max(1.0, abs(exp)):  # NaN fails
                 return result(False, sig="DensityMatrix.overlap-general", msg=f"N={n}: overlap of two complex matrices is {ov}, Tr(A^dag B) = {exp}", outcome="viol")
         return result(True, outcome=["states", n, count], states=count, transitions=calls, nontrivial=nontriv > 0)
 
@@ -245,16 +245,16 @@ def run_case(case):
                 dn = DenseOperator.from_operator_repr(eigenstates=("r", "g"), n_qudits=n, operations=ops_repr)
                 sp = SparseOperator.from_operator_repr(eigenstates=("r", "g"), n_qudits=n, operations=ops_repr)
                 calls += 6
-                if np.abs(_np(dn) - ref).max() > 1e-12:
+                if not np.abs(_np(dn) - ref).max() <= 1e-12:  # NaN fails
                     return result(False, sig="DenseOperator.from_operator_repr", msg=f"N={n} operations {full}: dense operator differs from the Kronecker construction", outcome="viol")
-                if np.abs(_np(sp) - ref).max() > 1e-12:
+                if not np.abs(_np(sp) - ref).max() <= 1e-12:  # NaN fails
                     return result(False, sig="SparseOperator.from_operator_repr", msg=f"N={n} operations {full}: sparse operator differs from the Kronecker construction", outcome="viol")
                 for op, nm in ((dn, "Dense"), (sp, "Sparse")):
                     got = _np(op.apply_to(svpsi))
-                    if np.abs(got - ref @ psi).max() > 1e-12:
+                    if not np.abs(got - ref @ psi).max() <= 1e-12:  # NaN fails
                         return result(False, sig=f"{nm}Operator.apply_to", msg=f"N={n} operations {full}", outcome="viol")
                     ex = complex(op.expect(svpsi))
-                    if abs(ex - np.vdot(psi, ref @ psi)) > 1e-12:
+                    if not abs(ex - np.vdot(psi, ref @ psi)) <= 1e-12:  # NaN fails
                         return result(False, sig=f"{nm}Operator.expect", msg=f"N={n} operations {full}: {ex}", outcome="viol")
         return result(True, outcome=["ops", n, case["lo"]], states=2 * len(sel), transitions=calls, nontrivial=True)
 
@@ -269,7 +269,7 @@ def run_case(case):
         for j in range(0, len(terms), step):
             d2, s2, r2 = built[j]
             calls += 5
-            if np.abs(_np(d1 @ d2) - r1 @ r2).max() > 1e-12:
+            if not np.abs(_np(d1 @ d2) - r1 @ r2).max() <= 1e-12:  # NaN fails
                 return result(False, sig="DenseOperator.matmul", msg=f"N={n} {terms[i]} @ {terms[j]}", outcome="viol")
             if np.abs(_np(d1 + d2) - (r1 + r2)).max() > 1e-12 or np.abs(_np(s1 + s2) - (r1 + r2)).max() > 1e-12:
                 return result(False, sig="Operator.add", msg=f"N={n} {terms[i]} + {terms[j]}", outcome="viol")
